@@ -240,6 +240,18 @@ def decode_record(data):
     return '%d/%d/%s' % (cid, args, pstate_wire(state))
 
 
+def decode_record_safe(data):
+    """like decode_record; records of classes outside the table (the root PersistentMapping …) or
+    with states outside the tree grammar become the opaque record 999/0/a0."""
+    try:
+        w = decode_record(data)
+    except Exception:
+        return '999/0/a0.'
+    if w.startswith('999/') or '?' in w or ' ' in w:
+        return '999/0/a0.'
+    return w
+
+
 def lstate_wire(x):
     """state as `_p_resolveConflict` receives it -> wire of a loaded state"""
     from ZODB.ConflictResolution import PersistentReference
@@ -494,6 +506,7 @@ class Recorder:
         self.tid_of = tid_of      # function() -> int tid of the transaction in progress
         self.lock = threading.Lock()
         self.on_event = None
+        self.last_finish = {}     # thread ident -> tid (int) of the last successful tpc_finish
         for name in ('tpc_begin', 'store', 'checkCurrentSerialInTransaction', 'tpc_vote', 'tpc_finish',
                      'tpc_abort'):
             setattr(storage, name, self._wrap(name, getattr(storage, name)))
@@ -561,6 +574,7 @@ class Recorder:
             except BaseException as e:  # noqa: B902
                 rec.emit('finish-exit', t, errname(e))
                 raise
+            rec.last_finish[threading.get_ident()] = u64(tid)
             rec.emit('finish-exit', t, 'ok %d' % u64(tid))
             return tid
 
@@ -609,7 +623,7 @@ class Recorder:
                 ops.append(['begin', t, tid])
                 obs.append(out)
             elif k == 'store':
-                ops.append(['store', t, ev[2], ev[3], decode_record(ev[4])])
+                ops.append(['store', t, ev[2], ev[3], decode_record_safe(ev[4])])
                 obs.append(ev[5])
             elif k == 'check':
                 ops.append(['check', t, ev[2], ev[3]])
